@@ -87,11 +87,251 @@ fn handle(line: &str) -> String {
                 Err(_) => "err".to_string(),
             }
         }
+        "digests" => {
+            // hand-encoded package bytes -> Package::parse -> verify_digests
+            let b = unhex_bytes(p[1]);
+            match rpm::Package::parse(&mut &b[..]) {
+                Err(e) => format!("parse-err {:?}", e).replace(' ', "_"),
+                Ok(pkg) => match pkg.verify_digests() {
+                    Ok(()) => "ok".to_string(),
+                    Err(rpm::Error::DigestMismatchError) => "err mismatch".to_string(),
+                    Err(e) => format!("err other {}", format!("{:?}", e).replace(' ', "_")),
+                },
+            }
+        }
+        "getters" => {
+            // every typed getter for RPMTAG_NAME on the main header of hand-encoded metadata
+            let b = unhex_bytes(p[1]);
+            match rpm::PackageMetadata::parse(&mut &b[..]) {
+                Err(_) => "parse-err".to_string(),
+                Ok(m) => {
+                    let t = rpm::IndexTag::RPMTAG_NAME;
+                    let h = &m.header;
+                    let mut out = Vec::new();
+                    out.push(match h.get_entry_data_as_binary(t) { Ok(v) => format!("bin={}", hexb(v)), Err(_) => "bin=!".into() });
+                    out.push(match h.get_entry_data_as_string(t) { Ok(v) => format!("str={}", hexb(v.as_bytes())), Err(_) => "str=!".into() });
+                    out.push(match h.get_entry_data_as_i18n_string(t) { Ok(v) => format!("i18n={}", hexb(v.as_bytes())), Err(_) => "i18n=!".into() });
+                    out.push(match h.get_entry_data_as_u16_array(t) { Ok(v) => format!("u16s={}", v.iter().map(|x| format!("{:x}", x)).collect::<Vec<_>>().join(",")), Err(_) => "u16s=!".into() });
+                    out.push(match h.get_entry_data_as_u32(t) { Ok(v) => format!("u32={:x}", v), Err(_) => "u32=!".into() });
+                    out.push(match h.get_entry_data_as_u32_array(t) { Ok(v) => format!("u32s={}", v.iter().map(|x| format!("{:x}", x)).collect::<Vec<_>>().join(",")), Err(_) => "u32s=!".into() });
+                    out.push(match h.get_entry_data_as_u64(t) { Ok(v) => format!("u64={:x}", v), Err(_) => "u64=!".into() });
+                    out.push(match h.get_entry_data_as_u64_array(t) { Ok(v) => format!("u64s={}", v.iter().map(|x| format!("{:x}", x)).collect::<Vec<_>>().join(",")), Err(_) => "u64s=!".into() });
+                    out.push(match h.get_entry_data_as_string_array(t) { Ok(v) => format!("strs={}", v.iter().map(|x| hexb(x.as_bytes())).collect::<Vec<_>>().join(",")), Err(_) => "strs=!".into() });
+                    out.join(" ")
+                }
+            }
+        }
+        "wsink" => {
+            // <k> <fail_at> <intr_at> <package|metadata>: write a freshly built package into a scripted sink; every failure position is tried
+            let k: usize = p[1].parse().unwrap_or(0);
+            let intr_at: usize = p[3].parse().unwrap_or(0);
+            let what = p.get(4).copied().unwrap_or("package");
+            let pkg = match rpm::PackageBuilder::new("x", "1.0", "MIT", "noarch", "d").compression(rpm::CompressionType::None).build() {
+                Ok(p) => p,
+                Err(_) => return "build-err".to_string(),
+            };
+            let mut canon = Vec::new();
+            if what == "package" { pkg.write(&mut canon).unwrap() } else { pkg.metadata.write(&mut canon).unwrap() }
+            let mut bad = Vec::new();
+            let ncalls = if k == 0 { 400 } else { canon.len() / k + 400 };
+            for fail_at in 0..ncalls {
+                let mut sink = ScriptSink { k, fail_at, intr_at, data: Vec::new(), calls: 0, failed: false };
+                let r = if what == "package" { pkg.write(&mut sink) } else { pkg.metadata.write(&mut sink) };
+                let good = match r {
+                    Ok(()) => !sink.failed && sink.data == canon,
+                    Err(_) => sink.data.len() <= canon.len() && sink.data[..] == canon[..sink.data.len()],
+                };
+                if !good {
+                    bad.push(fail_at);
+                }
+            }
+            if bad.is_empty() { "ok".to_string() } else { format!("bad fail_at={:?}... ({} positions) canonical_len={}", &bad[..bad.len().min(4)], bad.len(), canon.len()) }
+        }
+        "files" => {
+            // <hex package>: iterate the payload with Package::files(); answers ok <n> | err <where> | panic
+            let b = unhex_bytes(p[1]);
+            match rpm::Package::parse(&mut &b[..]) {
+                Err(_) => "parse-err".to_string(),
+                Ok(pkg) => match pkg.files() {
+                    Err(e) => format!("err files {}", format!("{:?}", e).replace(' ', "_")),
+                    Ok(it) => {
+                        let mut n = 0;
+                        let mut out = String::from("ok");
+                        for f in it {
+                            match f {
+                                Ok(_) => n += 1,
+                                Err(_) => {
+                                    out = "err entry".to_string();
+                                    break;
+                                }
+                            }
+                        }
+                        format!("{} {}", out, n)
+                    }
+                },
+            }
+        }
+        "paths" => {
+            let b = unhex_bytes(p[1]);
+            match rpm::PackageMetadata::parse(&mut &b[..]) {
+                Err(_) => "parse-err".to_string(),
+                Ok(m) => match m.get_file_paths() {
+                    Ok(v) => format!("ok {}", v.iter().map(|x| hex(&x.to_string_lossy())).collect::<Vec<_>>().join(",")),
+                    Err(e) => format!("err {}", format!("{:?}", e).split(|c: char| !c.is_alphanumeric()).next().unwrap_or("")),
+                },
+            }
+        }
+        "sigverify" => {
+            // <hex package> <accept pattern, one 0/1 per verifier call, missing = 1>
+            let b = unhex_bytes(p[1]);
+            let pat: Vec<bool> = p.get(2).map(|s| s.chars().map(|c| c == '1').collect()).unwrap_or_default();
+            match rpm::Package::parse(&mut &b[..]) {
+                Err(_) => "parse-err".to_string(),
+                Ok(pkg) => {
+                    let o = pkg.metadata.get_package_segment_offsets();
+                    let mut meta = Vec::new();
+                    pkg.metadata.write(&mut meta).unwrap();
+                    let hdr = meta[o.header as usize..].to_vec();
+                    let v = RecVerifier { pat, calls: std::cell::RefCell::new(Vec::new()) };
+                    let r = pkg.verify_signature(&v);
+                    let calls = v.calls.borrow();
+                    let mut cov = String::new();
+                    for (data, _sig) in calls.iter() {
+                        let mut hc = hdr.clone();
+                        hc.extend_from_slice(&pkg.content);
+                        cov.push(if *data == hdr { 'h' } else if *data == hc { 'c' } else { 'x' });
+                    }
+                    let sigs: Vec<String> = calls.iter().map(|(_, s)| hexb(s)).collect();
+                    format!("{} calls={} covers={} sigs={}", match r { Ok(()) => "ok".to_string(), Err(e) => format!("err:{}", format!("{:?}", e).split(|c: char| !c.is_alphanumeric()).next().unwrap_or("")) },
+                            calls.len(), if cov.is_empty() { "-".to_string() } else { cov }, if sigs.is_empty() { "-".to_string() } else { sigs.join(",") })
+                }
+            }
+        }
+        "meta_chunked" => {
+            // same as meta_rt but through a source that returns one byte per read, behind a 1-byte BufReader
+            struct OneByte<'a>(&'a [u8]);
+            impl<'a> std::io::Read for OneByte<'a> {
+                fn read(&mut self, out: &mut [u8]) -> std::io::Result<usize> {
+                    if out.is_empty() || self.0.is_empty() {
+                        return Ok(0);
+                    }
+                    out[0] = self.0[0];
+                    self.0 = &self.0[1..];
+                    Ok(1)
+                }
+            }
+            let b = unhex_bytes(p[1]);
+            let mut rd = std::io::BufReader::with_capacity(1, OneByte(&b[..]));
+            match rpm::PackageMetadata::parse(&mut rd) {
+                Err(_) => "parse-err".to_string(),
+                Ok(m) => {
+                    let mut out = Vec::new();
+                    match m.write(&mut out) {
+                        Ok(()) => format!("ok {}", hexb(&out)),
+                        Err(_) => "write-err".to_string(),
+                    }
+                }
+            }
+        }
+        "meta_offsets" => {
+            let b = unhex_bytes(p[1]);
+            match rpm::PackageMetadata::parse(&mut &b[..]) {
+                Err(_) => "parse-err".to_string(),
+                Ok(m) => {
+                    let o = m.get_package_segment_offsets();
+                    let mut out = Vec::new();
+                    m.write(&mut out).unwrap();
+                    let h = o.header as usize;
+                    let good = o.lead == 0 && o.signature_header == 96 && out.len() as u64 == o.payload && h + 4 <= out.len()
+                        && out[h..h + 4] == [0x8e, 0xad, 0xe8, 0x01] && out[96..100] == [0x8e, 0xad, 0xe8, 0x01];
+                    format!("{} lead={} sig={} header={} payload={} written={}", if good { "ok" } else { "mismatch" }, o.lead, o.signature_header, o.header, o.payload, out.len())
+                }
+            }
+        }
+        "meta_rt" => {
+            // parse -> write of package metadata; answers hex of the written bytes
+            let b = unhex_bytes(p[1]);
+            match rpm::PackageMetadata::parse(&mut &b[..]) {
+                Err(_) => "parse-err".to_string(),
+                Ok(m) => {
+                    let mut out = Vec::new();
+                    match m.write(&mut out) {
+                        Ok(()) => format!("ok {}", hexb(&out)),
+                        Err(_) => "write-err".to_string(),
+                    }
+                }
+            }
+        }
         _ => "unknown".to_string(),
     }
 }
 
+struct ScriptSink {
+    k: usize,
+    fail_at: usize,
+    intr_at: usize,
+    data: Vec<u8>,
+    calls: usize,
+    failed: bool,
+}
+impl std::io::Write for ScriptSink {
+    fn write(&mut self, b: &[u8]) -> std::io::Result<usize> {
+        if b.is_empty() {
+            return Ok(0);
+        }
+        self.calls += 1;
+        if self.failed || self.calls == self.fail_at {
+            self.failed = true;
+            return Err(std::io::Error::from(std::io::ErrorKind::Other));
+        }
+        if self.calls == self.intr_at {
+            return Err(std::io::Error::from(std::io::ErrorKind::Interrupted));
+        }
+        let n = if self.k == 0 { b.len() } else { self.k.min(b.len()) };
+        self.data.extend_from_slice(&b[..n]);
+        Ok(n)
+    }
+    fn flush(&mut self) -> std::io::Result<()> {
+        Ok(())
+    }
+}
+
+#[derive(Debug)]
+struct RecVerifier {
+    pat: Vec<bool>,
+    calls: std::cell::RefCell<Vec<(Vec<u8>, Vec<u8>)>>,
+}
+impl rpm::signature::Verifying for RecVerifier {
+    type Signature = Vec<u8>;
+    fn verify(&self, mut data: impl std::io::Read, signature: &[u8]) -> Result<(), rpm::Error> {
+        let mut d = Vec::new();
+        data.read_to_end(&mut d).unwrap();
+        let n = self.calls.borrow().len();
+        self.calls.borrow_mut().push((d, signature.to_vec()));
+        if self.pat.get(n).copied().unwrap_or(true) {
+            Ok(())
+        } else {
+            Err(rpm::Error::NoSignatureFound)
+        }
+    }
+    fn algorithm(&self) -> rpm::signature::AlgorithmType {
+        rpm::signature::AlgorithmType::RSA
+    }
+}
+
+fn unhex_bytes(s: &str) -> Vec<u8> {
+    let s = if s == "-" { "" } else { s };
+    (0..s.len() / 2).map(|i| u8::from_str_radix(&s[2 * i..2 * i + 2], 16).unwrap()).collect()
+}
+fn hexb(b: &[u8]) -> String {
+    if b.is_empty() {
+        return "-".to_string();
+    }
+    b.iter().map(|x| format!("{:02x}", x)).collect()
+}
+
 fn main() {
+    std::panic::set_hook(Box::new(|_| {}));
     let stdin = std::io::stdin();
     let stdout = std::io::stdout();
     for line in stdin.lock().lines() {
